@@ -12,7 +12,7 @@ StrictKinds == {"empty", "ascii", "unicode", "floats", "extremes", "bytes", "one
 
 ObsMsg(o) == [name |-> o.msg.name, parent |-> o.msg.parent, num |-> o.msg.num, flag |-> o.msg.flag, kind_e |-> o.msg.kind_e,
               wrapped |-> o.msg.wrapped, ts |-> o.msg.ts, childname |-> o.msg.childname, page_size |-> o.msg.page_size,
-              tags |-> o.msg.tags]
+              tags |-> o.msg.tags, u32 |-> o.msg.u32]
 
 JudgeBind(o) ==
     LET b == Bind(o.scn) IN
